@@ -495,12 +495,27 @@ func (q *checker) bcheckAssignment(lhs *a.Expr, op t.ID, rhs *a.Expr) error {
 
 	if (rhs.Operator() == a.ExprOperatorCall) && rhs.Effect().Impure() {
 		recv := rhs.LHS().AsExpr().LHS().AsExpr()
+		passesElements := false
+		if typ := recv.MType(); typ.IsEitherSliceType() || typ.IsEitherArrayType() {
+			passesElements = true
+		}
+		for _, arg := range rhs.Args() {
+			if typ := arg.AsArg().Value().MType(); typ.IsEitherSliceType() || typ.IsEitherArrayType() {
+				passesElements = true
+			}
+		}
 		if err := q.facts.update(func(x *a.Expr) (*a.Expr, error) {
 			if _, ok := oldFacts[x]; !ok {
 				// No-op. Don't drop any newly minted facts.
 			} else {
 				// Drop any old facts involving the receiver.
 				if x.Mentions(recv) {
+					return nil, nil
+				}
+				// Drop any old facts about elements that the callee can store to
+				// through another name: a slice can overlap a field of the
+				// receiver, or the memory passed by reference.
+				if readsElements(x, !passesElements) {
 					return nil, nil
 				}
 				// Drop any facts involving a pass-by-reference argument.
@@ -541,16 +556,26 @@ func (q *checker) bcheckAssignment(lhs *a.Expr, op t.ID, rhs *a.Expr) error {
 		for (base.Operator() == t.IDOpenBracket) || (base.Operator() == t.IDDotDot) {
 			base = base.LHS().AsExpr()
 		}
+		// The same memory can also be reached through other names: a slice can
+		// overlap any array or slice, and a user-defined method can read any
+		// field of its receiver.
+		onlyOfSlices := !base.MType().IsEitherSliceType()
 		mentionsLHS = func(x *a.Expr) bool {
-			return x.Mentions(lhs) || mentionsElementsOf(x, base)
+			return x.Mentions(lhs) || mentionsElementsOf(x, base) ||
+				readsElements(x, onlyOfSlices) || callsUserMethod(x)
 		}
 		for o := lhs; o != base; o = o.LHS().AsExpr() {
-			if x := o.MHS().AsExpr(); (x != nil) && mentionsElementsOf(x, base) {
+			if x := o.MHS().AsExpr(); (x != nil) && mentionsLHS(x) {
 				indexReadsBase = true
 			}
-			if x := o.RHS().AsExpr(); (x != nil) && mentionsElementsOf(x, base) {
+			if x := o.RHS().AsExpr(); (x != nil) && mentionsLHS(x) {
 				indexReadsBase = true
 			}
+		}
+	} else if lhs.Operator() == a.ExprOperatorSelector {
+		// A user-defined method can read the field being assigned to.
+		mentionsLHS = func(x *a.Expr) bool {
+			return x.Mentions(lhs) || callsUserMethod(x)
 		}
 	}
 
@@ -677,6 +702,39 @@ func (q *checker) bcheckAssignment(lhs *a.Expr, op t.ID, rhs *a.Expr) error {
 	}
 
 	return nil
+}
+
+// readsElements returns whether n contains an index expression like "x[i]"
+// (whose x, if onlyOfSlices, is slice-typed, not array-typed).
+func readsElements(n *a.Expr, onlyOfSlices bool) (ret bool) {
+	n.AsNode().Walk(func(o *a.Node) error {
+		if o.Kind() == a.KExpr {
+			if o := o.AsExpr(); o.Operator() == t.IDOpenBracket {
+				if typ := o.LHS().AsExpr().MType(); !onlyOfSlices || (typ == nil) || !typ.IsEitherArrayType() {
+					ret = true
+				}
+			}
+		}
+		return nil
+	})
+	return ret
+}
+
+// callsUserMethod returns whether n contains a call of a user-defined method
+// (one whose receiver is a struct), which can read any field of its receiver.
+func callsUserMethod(n *a.Expr) (ret bool) {
+	n.AsNode().Walk(func(o *a.Node) error {
+		if o.Kind() == a.KExpr {
+			if o := o.AsExpr(); o.Operator() == a.ExprOperatorCall {
+				if recv := o.LHS().AsExpr().LHS().AsExpr(); (recv != nil) && (recv.MType() != nil) &&
+					recv.MType().IsPointerType() {
+					ret = true
+				}
+			}
+		}
+		return nil
+	})
+	return ret
 }
 
 // mentionsElementsOf returns whether n reads an element of base: whether it
